@@ -248,11 +248,21 @@ def run(ctx):
             engine, spec_inputs, spec_out = build_engine(fl, rnd)
             ov = engine.output_variables[0]
             for t in rnd.sample(ov.terms, rnd.randint(0, len(ov.terms))) * rnd.choice([1, 2, 2, 3]):
+                # (now and then the activation sits on an equal-named copy of the term: the aggregated activation of a term goes by name)
+                if rnd.random() < 0.25:
+                    t = copy.copy(t)
+                    ctx.hit("event:fuzzy output holds an activation of an equal-named copy of a term")
                 ov.fuzzy.terms.append(fl.Activated(t, rnd.choice([0.0, 1.0, 0.25, rnd.random()]), fl.Minimum()))
             tname, sname = pairs[i % len(pairs)]
             conj, disj = getattr(fl, tname)(), getattr(fl, sname)()
             variables = spec_inputs + ([spec_out] if rnd.random() < 0.45 else [])
             tree = E.gen_tree(rnd, variables, rnd.randint(1, max_depth))
+            if i % 40 == 7:
+                # a long chain without parentheses: 34 to 90 operands, both connectives (fast paths for long left spines)
+                tree = ("prop", E.gen_prop(rnd, rnd.choice(variables), max_hedges=1))
+                for _ in range(rnd.choice([33, 40, 70, 89])):
+                    tree = (rnd.choice(["and", "and", "or"]), tree, ("prop", E.gen_prop(rnd, rnd.choice(variables), max_hedges=1)))
+                ctx.hit("shape:chain of more than 32 operands")
             w = E.gen_weight(rnd, 3)
             style = i % 4
             text = E.tree_text(rnd, tree, redundant=(0.0, 0.3, 0.0, 0.5)[style], tight=(0.0, 0.0, 1.0, 0.5)[style])
@@ -267,7 +277,11 @@ def run(ctx):
                     # a rule object that already held another (weighted) text is given this one: nothing of the old text may survive
                     rule = fl.Rule.create(f"if {E.prop_text(E.gen_prop(rnd, spec_inputs[0], allow_any=False))} then out0 is {spec_out['terms'][0]['name']} with 0.250", engine)
                     rule.text = rule_text
-                    rule.load(engine)
+                    if i % 4 == 0:
+                        fl.RuleBlock("loader", rules=[rule]).load_rules(engine)  # what an engine does with its blocks' rules
+                        ctx.hit("event:loaded rule given another text and loaded again through its rule block")
+                    else:
+                        rule.load(engine)
                     ctx.hit("event:rule object reused for another text")
             except Exception:
                 continue  # judged by the monitor on Antecedent.load
@@ -351,7 +365,7 @@ def run(ctx):
                 ctx.sample("antecedent", {"text": rule_text, "postfix": E.tree_postfix(tree), "conjunction": tname, "disjunction": sname, "row": rows[0], "degree": rule.activation_degree})
         probe.report(ctx)
         reach.report(ctx)
-    ctx.require("hook:Rule.activate_with", "hook:Antecedent.load", "compare:degree (generator tree)", "compare:postfix (generator tree)", "discriminates:swapped precedence", "discriminates:right associativity", "discriminates:hedge order", "piece:any", "piece:disabled variable", "piece:output variable proposition", "piece:weight", "shape:mixes and/or", "event:rule object reused for another text", "event:a loaded rule is given a text that is rejected", "event:hedges of a loaded proposition edited in place after an evaluation", "route:rule of a duplicated engine (copy)", "route:rule of a duplicated engine (deepcopy)", "route:rule of a duplicated engine (fll)", "input:2-D block of values per variable")
+    ctx.require("hook:Rule.activate_with", "hook:Antecedent.load", "compare:degree (generator tree)", "compare:postfix (generator tree)", "discriminates:swapped precedence", "discriminates:right associativity", "discriminates:hedge order", "piece:any", "piece:disabled variable", "piece:output variable proposition", "piece:weight", "shape:mixes and/or", "event:rule object reused for another text", "event:a loaded rule is given a text that is rejected", "shape:chain of more than 32 operands", "event:loaded rule given another text and loaded again through its rule block", "event:fuzzy output holds an activation of an equal-named copy of a term", "event:hedges of a loaded proposition edited in place after an evaluation", "route:rule of a duplicated engine (copy)", "route:rule of a duplicated engine (deepcopy)", "route:rule of a duplicated engine (fll)", "input:2-D block of values per variable")
 
 
 def passive(ctx, fl, probe):
